@@ -15,6 +15,10 @@ int xv_threw; uint64_t xv_clock, xv_rmw_old; _Bool xv_cas_ok;
 #ifndef L
 #define L 2             /* extension items available to the bucket under test */
 #endif
+#ifndef CB
+#define CB 0            /* index of the bucket under test: a per-run shape constant (a symbolic bucket index makes every bucket access a
+                           symbolic-offset access into the block object, which cbmc encodes bytewise: 7x slower, same coverage by enumeration) */
+#endif
 #define NI 3            /* bucket_item_count, static-asserted below against the header */
 #define MAXI (NI + L)
 #define LP (L > 0 ? L : 1)
@@ -154,7 +158,8 @@ static void sp_view(struct bkt* b, bstate_t st, struct view* w) {
   unsigned c = BS_item_count(st); w->n = 0; w->ok = 1;
   for (unsigned i = 0; i < MAXI; i++) { w->k[i] = 0; w->v[i] = 0; }
   if (c > NI) { w->ok = 0; c = NI; }
-  for (unsigned i = 0; i < c; i++) { w->k[w->n] = b->key[i]; w->v[w->n] = b->value[i]; w->n++; }
+  for (unsigned i = 0; i < NI; i++) if (i < c) { w->k[i] = b->key[i]; w->v[i] = b->value[i]; }
+  w->n = c;
   if (b->head != 0 && c != NI) w->ok = 0;
   if (BS_delete_marker(st) != 0) w->ok = 0;
   struct ext* p = b->head; unsigned steps = 0;
@@ -260,7 +265,7 @@ static void snapshot_pool(struct ext* e0) { for (unsigned i = 0; i < LP; i++) e0
 
 /* ================= harnesses ================= */
 void h_lock_bucket(void) {
-  in_cb = nondet_uint(); in_count = nondet_uint(); in_ver = nondet_u32();
+  in_cb = CB; in_count = nondet_uint(); in_ver = nondet_u32();
   havoc_world(in_cb, in_count, 0, in_ver);
   uint64_t hash = nondet_u64(); XV_ASSUME((hash & G.mask) == in_cb);
   struct blk g0 = G; struct blk* guard = nondet_bool() ? &G : 0; bstate_t st = nondet_u32();
@@ -288,7 +293,7 @@ void h_lock_bucket_int(void) {
 
 void h_find(void) {
   in_count = nondet_uint(); in_chain = nondet_uint(); in_ver = nondet_u32(); in_hash = nondet_u64(); in_rank = nondet_uint(); in_present = nondet_bool();
-  in_cb = (unsigned)(in_hash & (NB - 1));
+  in_cb = CB; XV_ASSUME((in_hash & (NB - 1)) == CB);
   havoc_world(in_cb, in_count, in_chain, in_ver);
   struct bkt* b = &G.bks[in_cb];
   struct view w0; sp_view(b, b->state, &w0); XV_ASSUME(w0.ok && sp_distinct(&w0));
@@ -322,7 +327,7 @@ void h_begin(void) {
 }
 
 void h_next(void) {
-  in_cb = nondet_uint(); in_count = nondet_uint(); in_chain = nondet_uint(); in_ver = nondet_u32(); in_rank = nondet_uint();
+  in_cb = CB; in_count = nondet_uint(); in_chain = nondet_uint(); in_ver = nondet_u32(); in_rank = nondet_uint();
   havoc_world(in_cb, in_count, in_chain, in_ver);
   struct bkt* b = &G.bks[in_cb]; struct view w0; sp_view(b, b->state, &w0); XV_ASSUME(w0.ok);
   XV_ASSUME(in_rank < w0.n);
@@ -342,7 +347,7 @@ void h_next(void) {
 }
 
 void h_deref(void) {
-  in_cb = nondet_uint(); in_count = nondet_uint(); in_chain = nondet_uint(); in_ver = nondet_u32(); in_rank = nondet_uint();
+  in_cb = CB; in_count = nondet_uint(); in_chain = nondet_uint(); in_ver = nondet_u32(); in_rank = nondet_uint();
   havoc_world(in_cb, in_count, in_chain, in_ver);
   struct bkt* b = &G.bks[in_cb]; struct view w0; sp_view(b, b->state, &w0); XV_ASSUME(w0.ok && in_rank < w0.n);
   struct vit it; position(&it, in_cb, in_rank);
@@ -352,9 +357,9 @@ void h_deref(void) {
 }
 
 void h_erase(void) {
-  in_cb = nondet_uint(); in_count = nondet_uint(); in_chain = nondet_uint(); in_ver = nondet_u32(); in_rank = nondet_uint();
+  in_cb = CB; in_count = nondet_uint(); in_chain = nondet_uint(); in_ver = nondet_u32(); in_rank = nondet_uint();
 #ifdef XV_TRACE_SMALL
-  XV_ASSUME(in_cb == 0 && in_ver < 1000);
+  XV_ASSUME(in_ver < 1000);
 #endif
   havoc_world(in_cb, in_count, in_chain, in_ver);
   struct bkt* b = &G.bks[in_cb]; struct view w0; sp_view(b, b->state, &w0); XV_ASSUME(w0.ok && sp_distinct(&w0));
@@ -405,7 +410,7 @@ void h_erase(void) {
 }
 
 void h_reset(void) {
-  in_cb = nondet_uint(); in_count = nondet_uint(); in_chain = nondet_uint(); in_ver = nondet_u32(); in_rank = nondet_uint(); in_positioned = nondet_bool();
+  in_cb = CB; in_count = nondet_uint(); in_chain = nondet_uint(); in_ver = nondet_u32(); in_rank = nondet_uint(); in_positioned = nondet_bool();
   havoc_world(in_cb, in_count, in_chain, in_ver);
   struct bkt* b = &G.bks[in_cb]; struct view w0; sp_view(b, b->state, &w0); XV_ASSUME(w0.ok);
   struct vit it = VIT_default(); struct ext e0[LP]; snapshot_pool(e0);
@@ -425,7 +430,7 @@ void h_reset(void) {
 }
 
 static void mnb_common(void) {
-  in_cb = nondet_uint(); in_count = nondet_uint(); in_ver = nondet_u32();
+  in_cb = CB; in_count = nondet_uint(); in_ver = nondet_u32();
   havoc_world(in_cb, in_count, 0, in_ver);
   struct bkt* b = &G.bks[in_cb];
   struct vit it; it.block = &G; it.current_bucket = b;
@@ -470,7 +475,7 @@ void h_mnb(void) { mnb_common(); }
 void h_mnb_int(void) { mnb_common(); }
 
 void h_move_ctor(void) {
-  in_cb = nondet_uint(); in_count = nondet_uint(); in_chain = nondet_uint(); in_ver = nondet_u32(); in_rank = nondet_uint(); in_positioned = nondet_bool();
+  in_cb = CB; in_count = nondet_uint(); in_chain = nondet_uint(); in_ver = nondet_u32(); in_rank = nondet_uint(); in_positioned = nondet_bool();
   havoc_world(in_cb, in_count, in_chain, in_ver);
   struct bkt* b = &G.bks[in_cb]; struct view w0; sp_view(b, b->state, &w0); XV_ASSUME(w0.ok);
   struct vit other = VIT_default(), self;
@@ -488,8 +493,8 @@ void h_move_ctor(void) {
 
 unsigned in_cb2; _Bool in_positioned2;
 void h_move_assign(void) {
-  in_cb = nondet_uint(); in_count = nondet_uint(); in_chain = nondet_uint(); in_ver = nondet_u32(); in_rank = nondet_uint(); in_positioned = nondet_bool();
-  in_cb2 = nondet_uint(); in_positioned2 = nondet_bool();
+  in_cb = CB; in_count = nondet_uint(); in_chain = nondet_uint(); in_ver = nondet_u32(); in_rank = nondet_uint(); in_positioned = nondet_bool();
+  in_cb2 = (CB + 1) % NB; in_positioned2 = nondet_bool();
   havoc_world(in_cb, in_count, in_chain, in_ver);
   struct bkt* b = &G.bks[in_cb]; struct view w0; sp_view(b, b->state, &w0); XV_ASSUME(w0.ok);
   struct vit other = VIT_default(), self = VIT_default();
@@ -517,7 +522,7 @@ void h_move_assign(void) {
 
 /* whole traversal on a small map: every element of every bucket is yielded exactly once (bounded cross-check of the induction) */
 void h_traverse(void) {
-  in_cb = nondet_uint(); in_count = nondet_uint(); in_chain = nondet_uint();
+  in_cb = CB; in_count = nondet_uint(); in_chain = nondet_uint();
   havoc_world(in_cb, in_count, in_chain, nondet_u32());
   unsigned gb = nondet_uint(), gr = nondet_uint(); XV_ASSUME(gb < NB);
   struct view wg; sp_view(&G.bks[gb], G.bks[gb].state, &wg); XV_ASSUME(wg.ok);
